@@ -112,22 +112,22 @@ CHECKS = {
  'C02': dict(
    technique='every candidate of every accepted line decoded by GNU objdump and compared with the line; GNU as as oracle for boundary values; order-of-calls independence; Coq codec lemmas (immediate fitting / little-endian emission) on the model side',
    text=("Lines: Intel and AT&T renderings of ~18k (quick) usable base strings (lift catalogue one-per-signature forms + fixed sample of the decoder control space + mandatory-prefix SSE forms, restricted to strings where decoder and objdump agree) and boundary-value substitutions (-129 .. 2^32-1) of immediates/displacements on one string per (mnemonic, feature) class. Every candidate must be ONE instruction of full length for objdump with the line's mnemonic, operands, sizes, displacement, immediate; for boundary lines GNU as decides whether the value fits and what it encodes to. Lines are also assembled in reverse process order (the result must not depend on earlier calls)."),
-   note=TB + "The assembler's text layer (PLY grammars, candidate search) is NOT modelled in Gallina: what is proved is the codec layer (see props); the property itself is decided on the implementation against GNU as / objdump 2.40 (external references). Known deviations are listed per (kind, mnemonic template, operand features) in known_findings.json; 16-bit addressing forms share one class per kind.",
+   note=TB + "The assembler's text layer (PLY grammars, candidate search) is NOT modelled in Gallina: what is proved is the codec / mnemonic / term-algebra layer (see props/<id>.v); the property itself is decided on the implementation against GNU as / objdump 2.40 (external references). Known deviations are listed per (kind, mnemonic template, operand features) in known_findings.json; 16-bit addressing forms share one class per kind.",
    design='4/C02', category='other'),
  'C03': dict(
    technique='render -> assemble -> decode -> render -> assemble fixpoint run on the implementation over the base strings; canonicality decided by GNU as on objdump text',
    text=("For every usable base string b: asm(str(dis(b))) must contain b when b is canonical (GNU as applied to objdump's text of b returns b); every candidate c of every accepted line must decode at exactly len(c) bytes and be among the candidates of its own rendering."),
-   note=TB + "The assembler's text layer (PLY grammars, candidate search) is NOT modelled in Gallina: what is proved is the codec layer (see props); the property itself is decided on the implementation against GNU as / objdump 2.40 (external references). Known deviations are listed per (kind, mnemonic template, operand features) in known_findings.json; 16-bit addressing forms share one class per kind.",
+   note=TB + "The assembler's text layer (PLY grammars, candidate search) is NOT modelled in Gallina: what is proved is the codec / mnemonic / term-algebra layer (see props/<id>.v); the property itself is decided on the implementation against GNU as / objdump 2.40 (external references). Known deviations are listed per (kind, mnemonic template, operand features) in known_findings.json; 16-bit addressing forms share one class per kind.",
    design='4/C03', category='other'),
  'C09': dict(
    technique='both renderings of every base string re-parsed by the matching miasmX parser and assembled by GNU as in the matching syntax mode; instruction identity by objdump',
    text=('For every usable base string: the Intel and the AT&T rendering must each assemble (asm / asm_att) to a candidate set containing the original bytes; unless the instruction has a raw relative displacement or an absolute numeric memory operand, GNU as must accept each rendering without warning and produce an encoding objdump reads as the original instruction (redundant ds/ss overrides and nop = xchg eax,eax tolerated).'),
-   note=TB + "The assembler's text layer (PLY grammars, candidate search) is NOT modelled in Gallina: what is proved is the codec layer (see props); the property itself is decided on the implementation against GNU as / objdump 2.40 (external references). Known deviations are listed per (kind, mnemonic template, operand features) in known_findings.json; 16-bit addressing forms share one class per kind.",
+   note=TB + "The assembler's text layer (PLY grammars, candidate search) is NOT modelled in Gallina: what is proved is the codec / mnemonic / term-algebra layer (see props/<id>.v); the property itself is decided on the implementation against GNU as / objdump 2.40 (external references). Known deviations are listed per (kind, mnemonic template, operand features) in known_findings.json; 16-bit addressing forms share one class per kind.",
    design='4/C09', category='other'),
  'C19': dict(
    technique='candidate-set equality of presentation-only respellings, computed on the implementation',
    text=('One (quick) / three (thorough) base strings per (mnemonic, feature) class; respellings: register case, keyword case, spacing, hex/HEX/decimal, -1 vs 0xFFFFFFFF, signed vs unsigned spelling of the same value modulo the operand width (Intel and AT&T, ALU group), [b+i*s] vs [i*s+b], [r+d] vs [d+r] vs d[r], st vs st(0), optional % before registers, AT&T transliteration. Candidate SETS must be equal; lines also assembled in reverse process order.'),
-   note=TB + "The assembler's text layer (PLY grammars, candidate search) is NOT modelled in Gallina: what is proved is the codec layer (see props); the property itself is decided on the implementation against GNU as / objdump 2.40 (external references). Known deviations are listed per (kind, mnemonic template, operand features) in known_findings.json; 16-bit addressing forms share one class per kind.",
+   note=TB + "The assembler's text layer (PLY grammars, candidate search) is NOT modelled in Gallina: what is proved is the codec / mnemonic / term-algebra layer (see props/<id>.v); the property itself is decided on the implementation against GNU as / objdump 2.40 (external references). Known deviations are listed per (kind, mnemonic template, operand features) in known_findings.json; 16-bit addressing forms share one class per kind.",
    design='4/C19', category='other'),
  'C12': dict(
    technique='call histories on shared objects in one process; every answer compared with its pure answer (Gallina models Simp.v/EvalAbs.v, which are functions by construction; a fresh process for dis/lift/asm); input re-serialisation, table digests, parser-table cache modes',
